@@ -258,8 +258,40 @@ package client
 //@   loop 2
 //@     invariant 0 <= i && i < len(prop.Initial.Sigs) && sig == prop.Initial.Sigs[i] && forall b wallet.BackendID :: visited(b) ==> verifyOK(prop.Initial.Params.Parts[i][b], prop.Initial.State, sig)
 
+// firstFor(l, id, i): position i holds the first sub-allocation for id.
+//@ pred firstFor(l []channel.SubAlloc, id channel.ID, i int) = 0 <= i && i < len(l) && l[i].ID == id && forall k int :: 0 <= k && k < i ==> l[k].ID != id
+// lockedMinus(o, n, i): n is o with position i removed, everything else unchanged and in order.
+//@ pred lockedMinus(o []channel.SubAlloc, n []channel.SubAlloc, i int) =
+//@   len(n) == len(o) - 1 && (forall k int :: 0 <= k && k < i ==> subAllocEq(o[k], n[k])) && (forall k int :: i <= k && k < len(n) ==> subAllocEq(o[k + 1], n[k]))
+
+//@ func lockedWithout
+//@   requires nonNilLocked(before) && nonNilLocked(after)
+//@   ensures result ==> lockedHas(before, id)
+//@   ensures forall i int :: firstFor(before, id, i) ==> (result <==> lockedMinus(before, after, i))
+//@   loop 1
+//@     invariant forall k int :: 0 <= k && k < $i ==> before[k].ID != id
+
+// settleOK: what the statement of C07 demands of an automatically accepted virtual channel settlement update.
+//@ pred settleOK(parent *Channel, prop *VirtualChannelSettlementProposalMsg) =
+//@   prop.Final.Params.id == prop.Final.State.ID &&
+//@   len(prop.Final.Params.Parts) == len(prop.Final.State.Balances[0]) && len(prop.Final.Sigs) == len(prop.Final.Params.Parts) &&
+//@   sigsVerified(prop.Final.Params, prop.Final.State, prop.Final.Sigs) &&
+//@   assetsEq(chanState(parent).Assets, prop.Final.State.Assets) &&
+//@   !lockedHas(prop.State.Locked, prop.Final.Params.id) &&
+//@   lockedHas(chanState(parent).Locked, prop.Final.Params.id) &&
+//@   forall i int :: firstFor(chanState(parent).Locked, prop.Final.Params.id, i) ==>
+//@     len(chanState(parent).Locked[i].Bals) == len(prop.Final.State.Balances) &&
+//@     (forall a int :: 0 <= a && a < len(prop.Final.State.Balances) ==> val(chanState(parent).Locked[i].Bals[a]) == allocSum(prop.Final.State.Allocation, a)) &&
+//@     movedBy(chanState(parent).Balances, prop.State.Balances, prop.Final.State.Balances, chanState(parent).Locked[i].IndexMap, 1) &&
+//@     lockedMinus(chanState(parent).Locked, prop.State.Locked, i)
+
 //@ func (*Client).validateVirtualChannelSettlementProposal
 //@   requires c != nil && chanWF(parent) && settlePropDecoded(prop)
+//@   ensures result == nil ==> settleOK(parent, prop)
+//@   loop 1
+//@     invariant forall k int :: 0 <= k && k < $i ==> forall b wallet.BackendID :: has(prop.Final.Params.Parts[k], b) ==> verifyOK(prop.Final.Params.Parts[k][b], prop.Final.State, prop.Final.Sigs[k])
+//@   loop 2
+//@     invariant 0 <= i && i < len(prop.Final.Sigs) && sig == prop.Final.Sigs[i] && forall b wallet.BackendID :: visited(b) ==> verifyOK(prop.Final.Params.Parts[i][b], prop.Final.State, sig)
 
 //@ func validIndexMap
 //@   ensures result <==> len(indexMap) == numParts && forall k int :: 0 <= k && k < len(indexMap) ==> indexMap[k] < numPartsParent
